@@ -384,13 +384,14 @@ theorem dispatchView_unreached (v : View) (op : Op)
     (h : reachesDispatch op.kind (fingerprintOf op) = false) : (dispatchView v op).1 = v := by
   cases op with
   | plain k ok => simp [dispatchView]
-  | queryCerts f' found => simp [dispatchView]
+  | queryCerts m i => simp [dispatchView]
+  | setDetail c l cl d t k p => simp [dispatchView]
   | queryCluster c => simp [dispatchView]
   | setHealthCheck c valid => simp [dispatchView]
   | removeHealthCheck c => simp [dispatchView]
   | updateListener t a valid => simp [dispatchView]
-  | removeCert a hv => simp [dispatchView]
-  | replaceCert a hv nv => simp [dispatchView]
+  | removeCert a i hv => simp [reachesDispatch, Op.kind] at h
+  | replaceCert a o hv n nv => simp [reachesDispatch, Op.kind] at h
   | addListener t a valid => cases t <;> simp [reachesDispatch, Op.kind] at h
   | addFront tls f' b1 b2 b3 b4 => cases tls <;> simp [reachesDispatch, Op.kind] at h
   | removeFront tls f' b1 b2 b3 => cases tls <;> simp [reachesDispatch, Op.kind] at h
@@ -403,7 +404,7 @@ theorem dispatchView_unreached (v : View) (op : Op)
   | activate t a => simp [reachesDispatch, Op.kind] at h
   | deactivate t a => simp [reachesDispatch, Op.kind] at h
   | removeListener t a => simp [reachesDispatch, Op.kind] at h
-  | addCert a valid => simp [reachesDispatch, Op.kind] at h
+  | addCert a i valid => simp [reachesDispatch, Op.kind] at h
 
 /-- one step of a running worker updates its `config_state` with the same
     `dispatch` the main process uses, whatever the proxies answered -/
@@ -649,7 +650,7 @@ theorem findL_mapL (s : WState) (t : LType) (a : Nat) (f : PListener → PListen
 def routeNeutral (op : Op) : Bool :=
   match op with
   | .plain k _ => k != .softStop && k != .hardStop && k != .returnListenSockets
-  | .queryCerts .. | .queryCluster _ | .addCluster .. | .removeCluster _ | .addBackend ..
+  | .queryCerts .. | .setDetail .. | .queryCluster _ | .addCluster .. | .removeCluster _ | .addBackend ..
   | .removeBackend .. | .setHealthCheck .. | .removeHealthCheck _ | .updateListener ..
   | .addCert .. | .removeCert .. | .replaceCert .. => true
   | _ => false
@@ -688,5 +689,178 @@ theorem c08_behaviour_matches_view_partial (ops : List Op) (s : WState) (hs : s.
     simp only [runState, List.foldl_cons]
     exact ih (step s op).1 (step_neutral_stopped s op hs h0) (fun o ho => hn o (by simp [ho]))
       (routesSync_of_eq s _ hl h1 h2 h)
+
+/-! ## metric-detail leases, listener capacity, certificate queries -/
+
+
+theorem filter_ne_lt (ls : List (Nat × Bool × Nat)) (c : Nat) (e : Nat × Bool × Nat)
+    (h : ls.find? (·.1 == c) = some e) : (ls.filter (·.1 != c)).length < ls.length := by
+  induction ls with
+  | nil => simp at h
+  | cons x xs ih =>
+    have hle := List.length_filter_le (fun y : Nat × Bool × Nat => y.1 != c) xs
+    by_cases hx : (x.1 == c) = true
+    · have : (x.1 != c) = false := by simp [bne, hx]
+      simp only [List.filter_cons, this, List.length_cons]
+      simp; omega
+    · have hx' : (x.1 == c) = false := by simpa using hx
+      simp only [List.find?_cons, hx'] at h
+      have := ih h
+      have hne : (x.1 != c) = true := by simp [bne, hx']
+      simp only [List.filter_cons, hne, if_true, List.length_cons]
+      omega
+
+theorem setDetailStep_bounded (ls : List (Nat × Bool × Nat)) (c : Nat) (l cl : Bool) (d : Nat) (t k : Bool) (p : Nat)
+    (h : ls.length ≤ Consts.wkLeaseTableCap) :
+    (setDetailStep ls c l cl d t k p).1.length ≤ Consts.wkLeaseTableCap := by
+  unfold setDetailStep
+  have hf : (ls.filter (·.1 != c)).length ≤ ls.length := List.length_filter_le _ _
+  simp only
+  repeat' split
+  all_goals (try simp only [List.length_cons]) <;> (try omega)
+  · next e heq _ => have := filter_ne_lt ls c e heq; omega
+  · next hcap _ heq _ =>
+    simp [heq] at hcap
+    omega
+
+/-- every command but SetMetricDetail leaves the lease table alone -/
+theorem proxyStep_leases (s : WState) (op : Op) :
+    (proxyStep s op).1.leases = s.leases ∨
+    ∃ c l cl d t k p, (proxyStep s op).1.leases = (setDetailStep s.leases c l cl d t k p).1 := by
+  cases op
+  case setDetail c l cl d t k p => right; exact ⟨c, l, cl, d, t, k, p, by simp [proxyStep]⟩
+  all_goals (left; simp only [proxyStep] <;> (repeat' split) <;> (try simp_all [mapL]) <;> (repeat' split) <;> (try simp_all))
+
+
+theorem step_leases_bounded (s : WState) (op : Op) (h : s.leases.length ≤ Consts.wkLeaseTableCap) :
+    (step s op).1.leases.length ≤ Consts.wkLeaseTableCap := by
+  by_cases hs : s.stopped = true
+  · simp [step, hs, h]
+  · have hs' : s.stopped = false := by simpa using hs
+    have : (step s op).1.leases = (proxyStep s op).1.leases := by
+      simp only [step, hs']
+      cases h1 : dispatchView s.view op
+      cases h2 : proxyStep s op
+      simp
+    rw [this]
+    rcases proxyStep_leases s op with h' | ⟨c, l, cl, d, t, k, p, h'⟩
+    · rw [h']; exact h
+    · rw [h']; exact setDetailStep_bounded _ _ _ _ _ _ _ _ h
+
+/-- the metric-detail lease table never holds more than LEASE_TABLE_CAP entries -/
+theorem c08_lease_table_bounded (ops : List Op) (s : WState)
+    (h : s.leases.length ≤ Consts.wkLeaseTableCap) :
+    (runState s ops).leases.length ≤ Consts.wkLeaseTableCap := by
+  induction ops generalizing s with
+  | nil => exact h
+  | cons op rest ih =>
+    simp only [runState, List.foldl_cons]
+    exact ih _ (step_leases_bounded s op h)
+
+/-- a lease taken with a known peer binding can be renewed or cleared by that peer only -/
+theorem c08_lease_owner_only (ls : List (Nat × Bool × Nat)) (c owner : Nat) (l cl : Bool) (t k : Bool) (p : Nat)
+    (hown : ls.find? (·.1 == c) = some (c, true, owner)) (hl : l = false)
+    (hother : ¬ (k = true ∧ p = owner)) :
+    setDetailStep ls c l cl 1 t k p = (ls, false) := by
+  unfold setDetailStep
+  have hr : (k && (owner == p)) = false := by
+    cases k <;> simp_all
+    intro h; exact hother h.symm
+  simp [hown, hl, hr] <;> cases cl <;> cases t <;> simp
+
+
+
+theorem proxyStep_slab (s : WState) (op : Op) :
+    ((proxyStep s op).1.slab.length ≤ s.slab.length ∨
+     (atCapacity s = false ∧ (proxyStep s op).1.slab.length = s.slab.length + 1)) ∧
+    (proxyStep s op).1.maxConn = s.maxConn := by
+  cases op
+  case addListener t a v =>
+    simp only [proxyStep]
+    split
+    · next h => simp at h; refine ⟨Or.inr ⟨by simpa using h.1.1, by simp⟩, rfl⟩
+    · exact ⟨Or.inl (Nat.le_refl _), rfl⟩
+  case deactivate t a =>
+    simp only [proxyStep]
+    (repeat' split) <;> simp_all [mapL] <;> (repeat' split) <;> (try simp_all) <;>
+      (try exact Or.inl (List.length_filter_le _ _))
+  all_goals (simp only [proxyStep] <;> (repeat' split) <;> (try simp_all [mapL]) <;> (repeat' split) <;> (try simp_all))
+
+
+/-- the accept-gate threshold `10 + 2 * max_connections` -/
+def capThreshold (s : WState) : Nat := Consts.sessAcceptBase + Consts.sessAcceptFactor * s.maxConn
+
+theorem step_slab_bounded (s : WState) (op : Op) (h : 3 + s.slab.length ≤ capThreshold s) :
+    3 + (step s op).1.slab.length ≤ capThreshold (step s op).1 := by
+  by_cases hs : s.stopped = true
+  · simp [step, hs, h]
+  · have hs' : s.stopped = false := by simpa using hs
+    have e1 : (step s op).1.slab = (proxyStep s op).1.slab ∧ (step s op).1.maxConn = (proxyStep s op).1.maxConn := by
+      simp only [step, hs']
+      cases h1 : dispatchView s.view op
+      cases h2 : proxyStep s op
+      simp
+    obtain ⟨hsl, hm⟩ := proxyStep_slab s op
+    unfold capThreshold at h ⊢
+    rw [e1.1, e1.2, hm]
+    rcases hsl with hle | ⟨hcap, heq⟩
+    · omega
+    · simp only [atCapacity, decide_eq_false_iff_not, ge_iff_le, Nat.not_le] at hcap
+      omega
+
+/-- the listener placeholders never push the slab past the accept gate:
+    `slab.len() <= 10 + 2 * max_connections` over every history (no client session open) -/
+theorem c08_listener_capacity_bounded (ops : List Op) (s : WState) (h : 3 + s.slab.length ≤ capThreshold s) :
+    3 + (runState s ops).slab.length ≤ capThreshold (runState s ops) := by
+  induction ops generalizing s with
+  | nil => exact h
+  | cons op rest ih =>
+    simp only [runState, List.foldl_cons]
+    exact ih _ (step_slab_bounded s op h)
+
+/-- at the gate every AddListener is refused ("session list is full") and the worker keeps its listeners -/
+theorem c08_listener_capacity_refuses (s : WState) (t : LType) (a : Nat) (v : Bool) (hs : s.stopped = false)
+    (h : atCapacity s = true) :
+    (step s (.addListener t a v)).2.resp = [.failure] ∧
+    (step s (.addListener t a v)).1.listeners = s.listeners := by
+  have hp : proxyStep s (.addListener t a v) = (s, envOf true false true allOk false none false) := by
+    simp [proxyStep, h]
+  refine ⟨?_, ?_⟩
+  · rw [step_resp s _ hs, hp]
+    cases t <;>
+      (simp only [Op.kind]
+       show fanout _ _ ++ listenerTail _ _ = [.failure]
+       rw [fanout_nil _ _ (by decide)]
+       simp [listenerTail, envOf, st])
+  · simp only [step, hs, hp]
+    cases h1 : dispatchView s.view (.addListener t a v)
+    simp
+
+/-- a fingerprint query is answered OK iff the view holds that certificate on some address -/
+theorem c08_qcerts_found_iff (s : WState) (id : Nat) (hs : s.stopped = false) :
+    (step s (.queryCerts 1 id)).2.resp = [.ok] ↔ ∃ a, (a, id) ∈ s.view.certs := by
+  rw [step_resp s _ hs]
+  simp only [Op.kind, proxyStep, envOf, respond, notify]
+  simp only [beq_self_eq_true, if_true]
+  by_cases hh : s.view.certs.any (·.2 == id) = true
+  · simp only [hh, st, if_true, true_iff]
+    simp only [List.any_eq_true] at hh
+    obtain ⟨x, hx, hid⟩ := hh
+    obtain ⟨xa, xi⟩ := x
+    simp at hid
+    exact ⟨xa, by rw [← hid]; exact hx⟩
+  · have hf : s.view.certs.any (·.2 == id) = false := by
+      cases hany : s.view.certs.any (·.2 == id)
+      · rfl
+      · exact absurd hany hh
+    simp only [hf, st]
+    constructor
+    · intro h; simp at h
+    · intro ⟨a, ha⟩
+      exfalso
+      apply hh
+      simp only [List.any_eq_true]
+      exact ⟨(a, id), ha, by simp⟩
+
 
 end Sozu.Worker
